@@ -274,8 +274,10 @@ fn compare(a: &Act, before: &Snap, after: &Snap, m: &mut RefSubject, model_befor
 }
 
 fn key_of(snap: &Snap, limit: u64) -> (Vec<(String, Vec<(u32, Vec<u8>, u64, Option<u16>)>)>, u64) {
-    // sequence dropped: nothing reads it except the +1, which is checked on every transition
-    (snap.iter().map(|(p, (_, o))| (p.clone(), o.clone())).collect(), limit)
+    // sequence dropped: nothing reads it except the +1, which is checked on every transition.
+    // Entries without observers dropped: whether an entry outlives its last observer is not fixed by the
+    // properties, and nothing that is checked depends on it (a never-registered path is tracked by the model).
+    (snap.iter().filter(|(_, (_, o))| !o.is_empty()).map(|(p, (_, o))| (p.clone(), o.clone())).collect(), limit)
 }
 
 fn bfs_limit(prop: Prop, ctx: &Ctx, rep: &mut Report, limit: u8, with_setlimit: bool, mode: u8) {
@@ -288,7 +290,7 @@ fn bfs_limit(prop: Prop, ctx: &Ctx, rep: &mut Report, limit: u8, with_setlimit: 
     let pname = if prop == Prop::C14 { "C14" } else { "C15" };
     let name = format!("bfs-limit{}{}{}", limit, if with_setlimit { "-setlimit" } else { "" }, match mode { 1 => "-3endpoints-3tokens-1path", 2 => "-2endpoints-1token-3paths", _ => "" });
     let desc = format!(
-        "closed BFS of the real Subject with unacknowledged limit {}: {} actions ({}; notification rounds on the observed path(s) + 1 never-registered path x 2 message ids x CON/NON, acknowledgements from each endpoint + a stranger x 2 ids{}); canonical key = per path the ordered observers (endpoint, token, count, pending id), sequence excluded",
+        "closed BFS of the real Subject with unacknowledged limit {}: {} actions ({}; notification rounds on the observed path(s) + 1 never-registered path x 2 message ids x CON/NON, acknowledgements from each endpoint + a stranger x 2 ids{}); canonical key = per path with observers: the ordered observers (endpoint, token, count, pending id); sequence and observer-less entries excluded",
         limit,
         acts.len(),
         match mode { 1 => "register/deregister x 3 endpoints x 3 tokens x 1 path", 2 => "register/deregister x 2 endpoints x 1 token x 3 paths", _ => "register/deregister x 2 endpoints x 2 tokens x 2 paths" },
